@@ -88,6 +88,45 @@ def check_value(ctx, kind, v):
               'write(%d)=%s, reference decodes it as %r' % (v, enc.hex(), refv))
 
 
+def check_stream(ctx, kind, values):
+    """history: several values are encoded one after the other into ONE stream the way androguard's own serialisers
+    do it (`buff = write(a); buff += write(b); ...`, i.e. the returned buffer is extended in place), then read back in
+    order; the same list is encoded a second time afterwards -- an encoder must not be disturbed by what callers did
+    with the buffers it returned earlier."""
+    import io
+    from androguard.core import dex
+    cm = _cm()
+    w = {'u': dex.writeuleb128, 's': dex.writesleb128, 'p1': lambda c, v: dex.writeuleb128(c, v + 1)}[kind]
+    r = {'u': dex.readuleb128, 's': dex.readsleb128, 'p1': dex.readuleb128p1}[kind]
+    case = {'mode': 'stream', 'kind': kind, 'values': list(values)}
+    ctx.case(nontrivial=len(values) >= 2, key=(kind, 'stream', tuple(values)), labels='stream:%s:n%d' % (kind, min(len(values), 6)),
+             sample={'kind': kind, 'stream_of': list(values)[:6]})
+    for rnd in (1, 2):
+        try:
+            buff = w(cm, values[0])
+            n = 1
+            for v in values[1:]:
+                if len(buff) > 5 * n:
+                    break                      # already wrong (no value needs more than 5 bytes): reported below
+                buff += w(cm, v)
+                n += 1
+            if len(buff) > 5 * len(values):
+                ctx.fail('stream:%s:round%d' % (kind, rnd), case,
+                         'round %d: encoding %r one after the other produced %d bytes (at most 5 per value): %s...'
+                         % (rnd, list(values), len(buff), bytes(buff[:24]).hex()))
+                return
+            b = io.BytesIO(bytes(buff))
+            got = [r(cm, b) for _ in values]
+            rest = b.read()
+        except Exception as e:
+            ctx.fail('stream:exception:%s' % kind, case, 'round %d: %r' % (rnd, e))
+            return
+        if got != list(values) or rest:
+            ctx.fail('stream:%s:round%d' % (kind, rnd), case,
+                     'round %d: wrote %r as one stream %s, read back %r (+%d bytes left)' % (rnd, list(values), bytes(buff).hex(), got, len(rest)))
+            return
+
+
 def boundaries():
     u, s = set(), set()
     for k in range(0, 33):
@@ -158,11 +197,28 @@ def run_shard(ctx, shard):
                 check_bytes(c, v[1], v[2] + v[3])
             else:
                 check_value(c, v[1], v[2])
-        hyp_collect(ctx, st.one_of(bytes_case, val_case), fn, n, salt=shard[1])
+        small = st.one_of(st.integers(0, 0x7f), st.sampled_from([0, 1, 2, 0x7f, 0x80, 300, 70000, 0xffffffff]), st.integers(0, 0xffffffff))
+        ssmall = st.one_of(st.integers(-64, 63), st.sampled_from([0, -1, 63, 64, -64, -65, 1 << 20, -(1 << 31)]),
+                           st.integers(-1 << 31, (1 << 31) - 1))
+        stream_case = st.one_of(
+            st.tuples(st.just('stream'), st.just('u'), st.lists(small, min_size=1, max_size=8)),
+            st.tuples(st.just('stream'), st.just('p1'), st.lists(small.map(lambda v: min(v, 0xfffffffe) - (v & 1)), min_size=1, max_size=8)),
+            st.tuples(st.just('stream'), st.just('s'), st.lists(ssmall, min_size=1, max_size=8)))
+
+        def fn(c, v):
+            if v[0] == 'bytes':
+                check_bytes(c, v[1], v[2] + v[3])
+            elif v[0] == 'stream':
+                check_stream(c, v[1], v[2])
+            else:
+                check_value(c, v[1], v[2])
+        hyp_collect(ctx, st.integers(0, 7).flatmap(lambda k: stream_case if k == 0 else bytes_case if k < 5 else val_case), fn, n, salt=shard[1])
 
 
 def replay(ctx, case):
     if case['mode'] == 'bytes':
         check_bytes(ctx, case['kind'], case['data'])
+    elif case['mode'] == 'stream':
+        check_stream(ctx, case['kind'], case['values'])
     else:
         check_value(ctx, case['kind'], case['value'])
